@@ -14,5 +14,5 @@ CONSTANTS
   StartStates = {"empty", "data"}
 SPECIFICATION Spec
 INVARIANTS TypeOK PublishedWhenIdle
-PROPERTIES LSNeverBackwards NoEchoUpload NoUploadBeforeOwnMerged BucketMonotone
+PROPERTIES CommittedOnlyAfterStore LSNeverBackwards NoEchoUpload NoUploadBeforeOwnMerged BucketMonotone
 CHECK_DEADLOCK FALSE
